@@ -18,7 +18,7 @@ open Ldk.Noise
 /-- the counter value at which a key is rotated: `if *sn >= 1000` / `if *rn >= 1000`
     (a literal in peer_channel_encryptor.rs, checked only before a length header, so a key seals
     exactly 1000 boxes = 500 messages) -/
-def ROTATE_AT : Nat := 1002
+def ROTATE_AT : Nat := 1000
 
 structure Sender where
   sk : Bytes
@@ -111,7 +111,7 @@ def complete (r : Receiver) (full : Bytes) : Step :=
     match decryptLengthHeader c r full with
     | none => .disconnect
     | some (len, r1) =>
-      if len < 2 then .disconnect
+      if len < 1 then .disconnect
       else .cont { r1 with buf := [], need := len + 16, isHeader := false } none
   else
     match decryptMessage c r full with
